@@ -105,8 +105,13 @@ func (c *c10) Summary(w *sim.World) (string, []string) {
 	return strings.Join(c.keys, "\x1f"), cls
 }
 
+func isAcct(s string) bool {
+	a, err := sdk.AccAddressFromBech32(s)
+	return err == nil && sim.AcctOfBytes(a) >= 0
+}
+
 var C10 = register(&HistProp{ID: "C10",
-	Genesis: func(t *rapid.T) *sim.GenSpec { return sim.DrawGenesis(t, sim.GenOpts{AbsentOpt: true}) },
+	Genesis: func(t *rapid.T) *sim.GenSpec { return sim.DrawGenesis(t, sim.GenOpts{AbsentOpt: true, EmptyRoles: true}) },
 	Next: func(g *sim.G, i int) *sim.Op {
 		if op := queuedOp(g); op != nil {
 			return op
@@ -126,7 +131,12 @@ var C10 = register(&HistProp{ID: "C10",
 						types = append(types, t)
 					}
 				}
-				queueOps(g, g.AdminOpOf(fmt.Sprintf("afterrestart%d", slot), sim.Pick(g, fmt.Sprintf("art%d", slot), types), m.Roles[slot]))
+				if isAcct(m.Roles[slot]) {
+					queueOps(g, g.AdminOpOf(fmt.Sprintf("afterrestart%d", slot), sim.Pick(g, fmt.Sprintf("art%d", slot), types), m.Roles[slot]))
+				} else {
+					// nobody holds the role: the owner (and anybody else) must be refused
+					queueOps(g, g.AdminOpOf(fmt.Sprintf("afterrestart%d", slot), sim.Pick(g, fmt.Sprintf("art%d", slot), types), m.Roles[0]))
+				}
 			}
 			if m.Pending != nil {
 				if a, err := sdk.AccAddressFromBech32(*m.Pending); err == nil && sim.AcctOfBytes(a) >= 0 {
@@ -151,7 +161,7 @@ var C10 = register(&HistProp{ID: "C10",
 						if g.Bool("newholder") {
 							by = g.W.Model.Roles[slot]
 						}
-						if sim.AcctOfBytes(sdk.MustAccAddressFromBech32(by)) >= 0 {
+						if isAcct(by) {
 							return g.AdminOpOf("followup", sim.Pick(g, "ftype", types), by)
 						}
 					}
@@ -427,7 +437,7 @@ func roleRollbackProbe(g *sim.G, label string) []*sim.Op {
 		}
 	}
 	ops := []*sim.Op{sim.Multi(a, b), g.AdminOpOf(label+"/byx", sim.Pick(g, label+"/t1", acts), x)}
-	if sim.AcctOfBytes(sdk.MustAccAddressFromBech32(m.Roles[slot])) >= 0 {
+	if isAcct(m.Roles[slot]) {
 		ops = append(ops, g.AdminOpOf(label+"/byholder", sim.Pick(g, label+"/t2", acts), m.Roles[slot]))
 	}
 	return ops
